@@ -214,8 +214,10 @@ type Engine struct {
 	initDone  map[*ssa.Package]bool
 	opaqueMem map[string]*Cell
 	constCells map[*Cell]Val
+	cellGlobal map[*Cell]*ssa.Global
 	streams   int
 	loopWhy   string
+	inInit    bool
 }
 
 func NewEngine(p *Program) *Engine {
@@ -398,6 +400,12 @@ func (e *Engine) cellVal(st *State, c *Cell) Val {
 	if v, ok := e.constCells[c]; ok {
 		st.mem[c] = v
 		return v
+	}
+	if g := e.cellGlobal[c]; g != nil && e.EvalInits && !e.inInit {
+		if v, ok := e.globalInitVal(g); ok {
+			st.mem[c] = v
+			return v
+		}
 	}
 	var v Val
 	if strings.HasPrefix(c.Name, "*") || strings.HasPrefix(c.Name, "g:") {
@@ -599,6 +607,10 @@ func (e *Engine) globalCell(g *ssa.Global) *Cell {
 	name := g.Pkg.Pkg.Name() + "." + g.Name()
 	c := e.newCell("g:"+name, pt)
 	e.globals[g] = c
+	if e.cellGlobal == nil {
+		e.cellGlobal = map[*Cell]*ssa.Global{}
+	}
+	e.cellGlobal[c] = g
 	return c
 }
 
